@@ -2,7 +2,7 @@
 # usage: seedstatic.sh <prop> <patch> : apply a patch to a scratch copy of /repo and run the static check on it
 P=$1; PATCH=$2
 D=$(mktemp -d /tmp/seedstatic-XXXX)
-rsync -a --exclude target /repo/ $D/
+rsync -a --exclude target --exclude .git/worktrees /repo/ $D/ 2>/dev/null
 if ! git -C $D apply "$PATCH"; then echo "PATCH DOES NOT APPLY"; rm -rf $D; exit 3; fi
 VERIF_REPO=$D /verif/check $P --no-evidence 2>&1 | grep -E "^  rule|^VIOLATION|^ANCHOR|^INFRA|RULE-ERROR|^C[0-9]+:" | cut -c1-400
 rm -rf $D
